@@ -226,11 +226,22 @@ def layout(toks, style='pretty', rng=None, eol='\n'):
     if style == 'tabs':
         ind = '\t'
 
+    pending_nl = [False]
+
     def newline():
         nonlocal line, col_start
+        pending_nl[0] = False
         out.append(eol)
         line += 1
         col_start = True
+
+    def soft_newline():
+        # pretty layouts: break the line here unless a trailing comment follows (it must stay on this line)
+        pending_nl[0] = True
+
+    def flush_nl():
+        if pending_nl[0]:
+            newline()
 
     def emit(s):
         nonlocal col_start
@@ -241,10 +252,11 @@ def layout(toks, style='pretty', rng=None, eol='\n'):
         if tk is NL:
             lines.append(None)
             if style in ('pretty', 'tabs') and not col_start:
-                newline()
+                soft_newline()
             continue
         if isinstance(tk, Comment):
             if tk.own_line:
+                flush_nl()
                 if not col_start:
                     newline()
                 if style in ('pretty', 'tabs'):
@@ -256,15 +268,15 @@ def layout(toks, style='pretty', rng=None, eol='\n'):
                 newline()
             else:
                 # trailing: must stay on the line of the previous token
-                if col_start and prev is None:
-                    pass
-                emit(' ' if style != 'tight' else ' ')
+                pending_nl[0] = False
+                emit(' ')
                 lines.append(line)
                 emit(tk.text)
                 newline()
             prev = tk
             continue
         # ordinary token
+        flush_nl()
         if style in ('pretty', 'tabs'):
             if tk == '}':
                 indent = max(0, indent - 1)
@@ -284,17 +296,17 @@ def layout(toks, style='pretty', rng=None, eol='\n'):
                 brack -= 1
             if tk == '{':
                 indent += 1
-                newline()
+                soft_newline()
             elif tk in (',', ';') and brack == 0:
-                newline()
+                soft_newline()
             elif tk == '}':
                 nxt = None
                 for z in toks[i + 1:]:
                     if z is not NL:
                         nxt = z
                         break
-                if nxt != ',' and not (isinstance(nxt, Comment) and not nxt.own_line):
-                    newline()
+                if nxt != ',':
+                    soft_newline()
         elif style == 'oneline':
             if not col_start:
                 if not (tk in NOSPACE_BEFORE or prev in NOSPACE_AFTER):
@@ -333,6 +345,8 @@ def layout(toks, style='pretty', rng=None, eol='\n'):
         else:
             raise ValueError(style)
         prev = tk
+    if pending_nl[0]:
+        newline()
     text = ''.join(out)
     return text, lines
 
